@@ -1185,3 +1185,422 @@ Proof.
     + simpl. unfold next_iter. rewrite H2, orb_true_r. simpl. exact H1.
     + simpl. unfold next_iter. rewrite H2, orb_true_r. simpl. exact H2.
 Qed.
+
+(* ================================================================== *)
+(* Part 3 — the concurrent model: no lost wake-up                      *)
+
+Inductive reachable (s0 : cstate) : cstate -> Prop :=
+| reach_init : reachable s0 s0
+| reach_step : forall s l s', reachable s0 s -> cstep l s = Some s' -> reachable s0 s'.
+
+Definition initial (s : cstate) : Prop := exists log st writers, s = cinit log st writers.
+
+Definition consumer_waiting (s : cstate) : Prop := c_cons s = CParked.
+Definition signal_full (s : cstate) : Prop := c_sig s = true.
+(* a committer has replaced the catalog and has not yet done its broadcast,
+   and the stream is in e.streams: its non-blocking send is still to come *)
+Definition committer_about_to_signal (s : cstate) : Prop :=
+  c_reg s = true /\ existsb is_published (c_writers s) = true.
+Definition closer_about_to_signal (s : cstate) : Prop := c_closer s = KMarked.
+
+(* a fresh pass of the loop would park again: nothing to do *)
+Definition quiescent (s : cstate) : Prop := snd (next_iter true false (c_st s) (c_log s)) = Park.
+
+(* the stream is open and an event of its scope lies ahead of it in the oplog *)
+Definition undelivered_matching (s : cstate) : Prop :=
+  sclosed (c_st s) = false /\
+  exists e p, pending (c_st s) (c_log s) = Some p /\ In e p /\ in_scope (sh (c_st s)) e = true.
+
+Record cinv (s : cstate) : Prop := mkCinv {
+  k_reg : c_reg s = false -> sclosed (c_st s) = true;
+  k_marked : c_closer s = KMarked -> sclosed (c_st s) = true;
+  k_chan : c_chclosed s = true -> sclosed (c_st s) = true;
+  k_wake : c_cons s = CParked ->
+           quiescent s \/ signal_full s \/ c_chclosed s = true \/
+           committer_about_to_signal s \/ closer_about_to_signal s
+}.
+
+Lemma next_iter_block_ctx : forall c s log, next_iter true c s log = next_iter true false s log.
+Proof.
+  intros c s log; unfold next_iter.
+  destruct (is_some (serror s) || sclosed s); [reflexivity|].
+  destruct (sdropped s); [reflexivity|].
+  destruct (pending s log) as [[|e t]|]; reflexivity.
+Qed.
+
+Lemma next_iter_park : forall b c s log s', next_iter b c s log = (s', Park) -> b = true /\ s' = s.
+Proof.
+  intros b c s log s'; unfold next_iter.
+  destruct (is_some (serror s) || sclosed s); [discriminate|].
+  destruct (sdropped s); [discriminate|].
+  destruct (pending s log) as [[|e t]|]; try discriminate.
+  - destruct b; [intros H; inversion H; auto|]. destruct c; discriminate.
+  - destruct (in_scope (sh s) e); discriminate.
+Qed.
+
+Lemma next_iter_closed_mono : forall b c s log, sclosed s = true -> sclosed (fst (next_iter b c s log)) = true.
+Proof.
+  intros b c s log H; unfold next_iter. rewrite H, orb_true_r. exact H.
+Qed.
+
+Lemma next_iter_closes : forall b c s log s' o, next_iter b c s log = (s', Return o) ->
+  (o = Invalidate \/ o = Lost) -> sclosed s' = true.
+Proof.
+  intros b c s log s' o; unfold next_iter.
+  destruct (is_some (serror s) || sclosed s); [intros H [E|E]; inversion H; subst; discriminate|].
+  destruct (sdropped s); [intros H _; inversion H; reflexivity|].
+  destruct (pending s log) as [[|e t]|].
+  - destruct b; [discriminate|]. destruct c; intros H [E|E]; inversion H; subst; discriminate.
+  - destruct (in_scope (sh s) e); [|discriminate]. intros H [E|E]; inversion H; subst; discriminate.
+  - intros H _; inversion H; reflexivity.
+Qed.
+
+Lemma closed_not_quiescent : forall c s log, sclosed s = true -> snd (next_iter true c s log) <> Park.
+Proof. intros c s log H; unfold next_iter. rewrite H, orb_true_r. discriminate. Qed.
+
+Lemma existsb_set_nth_published : forall ws i w, nth_error ws i = Some w ->
+  existsb is_published (set_nth i WPublished ws) = true.
+Proof.
+  induction ws as [|x t IH]; intros [|i] w H; simpl in *; try discriminate.
+  - reflexivity.
+  - rewrite (IH _ _ H). apply orb_true_r.
+Qed.
+
+Lemma existsb_published_nth : forall ws, existsb is_published ws = true ->
+  exists i, nth_error ws i = Some WPublished.
+Proof.
+  induction ws as [|x t IH]; simpl; intros H; [discriminate|].
+  destruct x; simpl in H; try (destruct (IH H) as [i Hi]; exists (S i); exact Hi).
+  exists 0; reflexivity.
+Qed.
+
+Lemma cinv_initial : forall s, initial s -> cinv s.
+Proof.
+  intros s (log & st & ws & ->). constructor; simpl; try discriminate.
+Qed.
+
+Lemma cinv_step : forall l s s', cinv s -> cstep l s = Some s' -> cinv s'.
+Proof.
+  intros l s s' [K1 K2 K3 KW] H. destruct l; simpl in H.
+  - (* LCall *)
+    destruct (c_cons s); inversion H; subst; clear H. constructor; simpl; auto; discriminate.
+  - (* LCheck *)
+    destruct (c_cons s) as [|b| |o] eqn:Ec; try discriminate.
+    destruct (next_iter b (c_ctx s) (c_st s) (c_log s)) as [st' [o| |]] eqn:N; inversion H; subst; clear H.
+    + pose proof (next_iter_closed_mono b (c_ctx s) (c_st s) (c_log s)) as M. rewrite N in M. simpl in M.
+      constructor; simpl; auto; try discriminate.
+      destruct o; auto; intros _; eapply next_iter_closes; eauto.
+    + pose proof (next_iter_closed_mono b (c_ctx s) (c_st s) (c_log s)) as M. rewrite N in M. simpl in M.
+      constructor; simpl; auto; discriminate.
+    + destruct (next_iter_park _ _ _ _ _ N) as [-> ->].
+      constructor; simpl; auto. intros _. left. unfold quiescent; simpl.
+      rewrite <- (next_iter_block_ctx (c_ctx s)), N. reflexivity.
+  - (* LWake *)
+    destruct (c_cons s); try discriminate.
+    destruct (c_sig s).
+    + inversion H; subst; clear H. constructor; simpl; auto; discriminate.
+    + destruct (c_chclosed s); inversion H; subst; clear H. constructor; simpl; auto; discriminate.
+  - (* LWakeCtx *)
+    destruct (c_cons s); try discriminate. destruct (c_ctx s); inversion H; subst; clear H.
+    assert (E : sclosed (wake_ctx (c_st s)) = sclosed (c_st s)).
+    { unfold wake_ctx; destruct (serror (c_st s)); reflexivity. }
+    constructor; simpl; rewrite ?E; auto; discriminate.
+  - (* LReturn *)
+    destruct (c_cons s); inversion H; subst; clear H. constructor; simpl; auto; discriminate.
+  - (* LPublish *)
+    destruct (c_alive s && negb (existsb is_published (c_writers s))) eqn:G; [|discriminate].
+    apply andb_prop in G; destruct G as [_ G]. apply negb_true_iff in G.
+    destruct (nth_error (c_writers s) i) as [[evs k| |]|] eqn:Nw; inversion H; subst; clear H.
+    constructor; simpl; auto. intros P. specialize (KW P).
+    destruct (c_reg s) eqn:R.
+    + right; right; right; left. split; [simpl; auto|]. simpl. eapply existsb_set_nth_published; eauto.
+    + specialize (K1 eq_refl). destruct KW as [Q|[Q|[Q|[[Q _]|Q]]]].
+      * exfalso. eapply closed_not_quiescent; [exact K1|exact Q].
+      * right; left; exact Q.
+      * right; right; left; exact Q.
+      * unfold committer_about_to_signal in *; congruence.
+      * right; right; right; right; exact Q.
+  - (* LSignal *)
+    destruct (nth_error (c_writers s) i) as [[evs k| |]|] eqn:Nw; inversion H; subst; clear H.
+    constructor; simpl; auto. intros P. specialize (KW P).
+    destruct KW as [Q|[Q|[Q|[[Q _]|Q]]]].
+    + left; exact Q.
+    + right; left. unfold signal_full in *; simpl. rewrite Q; reflexivity.
+    + right; right; left; exact Q.
+    + right; left. unfold signal_full; simpl. rewrite Q. apply orb_true_r.
+    + right; right; right; right; exact Q.
+  - (* LCloseMark *)
+    destruct (c_closer s) eqn:Ek; try discriminate.
+    destruct (sclosed (c_st s)) eqn:Ecl; inversion H; subst; clear H.
+    + constructor; simpl; auto; try discriminate.
+      intros P. destruct (KW P) as [Q|[Q|[Q|[Q|Q]]]].
+      * left; exact Q.
+      * right; left; exact Q.
+      * right; right; left; exact Q.
+      * right; right; right; left; exact Q.
+      * unfold closer_about_to_signal in Q. congruence.
+    + assert (E : sclosed (close_stream (c_st s)) = true).
+      { unfold close_stream. rewrite Ecl. reflexivity. }
+      constructor; simpl; auto. intros _. right; right; right; right. reflexivity.
+  - (* LCloseSend *)
+    destruct (c_closer s) eqn:Ek; inversion H; subst; clear H.
+    constructor; simpl; auto; try discriminate. intros _. right; left. reflexivity.
+  - (* LCancel *)
+    inversion H; subst; clear H. constructor; simpl; auto.
+  - (* LEngineClose *)
+    destruct (c_alive s && negb (existsb is_published (c_writers s)) && negb (is_marked (c_closer s))); [|discriminate].
+    destruct (c_reg s && negb (sclosed (c_st s))); inversion H; subst; clear H.
+    + constructor; simpl; auto.
+    + constructor; simpl; auto.
+Qed.
+
+Lemma cinv_reachable : forall s0 s, initial s0 -> reachable s0 s -> cinv s.
+Proof.
+  intros s0 s Hi R; induction R.
+  - apply cinv_initial; exact Hi.
+  - eapply cinv_step; eauto.
+Qed.
+
+Lemma matching_not_quiescent : forall s, undelivered_matching s -> ~ quiescent s.
+Proof.
+  intros s (_ & e & p & P & Hin & _) Q. unfold quiescent, next_iter in Q.
+  destruct (is_some (serror (c_st s)) || sclosed (c_st s)); [discriminate|].
+  destruct (sdropped (c_st s)); [discriminate|].
+  rewrite P in Q. destruct p as [|x t]; [contradiction|].
+  destruct (in_scope (sh (c_st s)) x); discriminate.
+Qed.
+
+(* THE WAKE-UP INVARIANT.  In every reachable state of the concurrent model
+   (any number of committers, Close, cancellation, Engine.Close, in any
+   interleaving of their atomic steps): if the consumer is parked in the
+   `select` while an event of its scope lies ahead of it in the published
+   oplog, then the signal buffer is full or a committer that has published is
+   still going to do its (non-blocking) send. *)
+Theorem no_lost_wakeup : forall s0 s, initial s0 -> reachable s0 s ->
+  consumer_waiting s -> undelivered_matching s ->
+  signal_full s \/ committer_about_to_signal s.
+Proof.
+  intros s0 s Hi R W U. pose proof (cinv_reachable _ _ Hi R) as [K1 K2 K3 KW].
+  destruct U as [Hop U']. assert (U : undelivered_matching s) by (split; assumption).
+  destruct (KW W) as [Q|[Q|[Q|[Q|Q]]]]; auto.
+  - exfalso; eapply matching_not_quiescent; eauto.
+  - specialize (K3 Q). congruence.
+  - specialize (K2 Q). congruence.
+Qed.
+
+(* the same for every reason to wake up: a parked consumer whose fresh pass
+   would not park again always has a wake-up pending *)
+Theorem no_lost_wakeup_general : forall s0 s, initial s0 -> reachable s0 s ->
+  consumer_waiting s -> ~ quiescent s ->
+  signal_full s \/ c_chclosed s = true \/ committer_about_to_signal s \/ closer_about_to_signal s.
+Proof.
+  intros s0 s Hi R W NQ. pose proof (cinv_reachable _ _ Hi R) as [K1 K2 K3 KW].
+  destruct (KW W) as [Q|Q]; [contradiction|exact Q].
+Qed.
+
+(* the `select` of the parked consumer has a ready case *)
+Definition wake_enabled (s : cstate) : Prop :=
+  exists s', cstep LWake s = Some s' \/ cstep LWakeCtx s = Some s'.
+
+Definition is_send (l : label) : Prop := (exists i, l = LSignal i) \/ l = LCloseSend.
+
+Definition wake_reason (s : cstate) : Prop :=
+  undelivered_matching s \/          (* a matching commit has been published *)
+  sclosed (c_st s) = true \/         (* Stream.Close / Engine.Close / invalidation closed the stream *)
+  c_ctx s = true.                    (* the context is cancelled *)
+
+(* "Without stalls", as enabledness: a blocked consumer with a reason to wake
+   can leave the select now, or the one pending non-blocking send — a step that
+   is always enabled — makes it so. *)
+Theorem waiting_consumer_enabled : forall s0 s, initial s0 -> reachable s0 s ->
+  consumer_waiting s -> wake_reason s ->
+  wake_enabled s \/
+  exists l s1, is_send l /\ cstep l s = Some s1 /\ wake_enabled s1.
+Proof.
+  intros s0 s Hi R W Why. unfold consumer_waiting in W.
+  destruct (c_ctx s) eqn:Cx.
+  { left. eexists. right. simpl. rewrite W, Cx. reflexivity. }
+  assert (NQ : ~ quiescent s).
+  { destruct Why as [U|[C|C]]; [apply matching_not_quiescent; exact U| |congruence].
+    intros Q. eapply closed_not_quiescent; [exact C|exact Q]. }
+  destruct (no_lost_wakeup_general _ _ Hi R W NQ) as [Q|[Q|[[Q1 Q2]|Q]]].
+  - left. eexists. left. simpl. rewrite W. unfold signal_full in Q. rewrite Q. reflexivity.
+  - left. destruct (c_sig s) eqn:Sg; eexists; left; simpl; rewrite W, Sg, ?Q; reflexivity.
+  - right. destruct (existsb_published_nth _ Q2) as [i Hi'].
+    eexists (LSignal i), _. split; [left; exists i; reflexivity|]. split.
+    + simpl. rewrite Hi'. reflexivity.
+    + eexists. left. simpl. rewrite W, Q1, orb_true_r. reflexivity.
+  - right. eexists LCloseSend, _. split; [right; reflexivity|]. split.
+    + simpl. unfold closer_about_to_signal in Q. rewrite Q. reflexivity.
+    + eexists. left. simpl. rewrite W. reflexivity.
+Qed.
+
+(* a ready wake-up stays ready until the consumer takes it: no other actor's
+   step disables it *)
+Theorem wake_enabled_stable : forall l s s', cstep l s = Some s' ->
+  l <> LWake -> l <> LWakeCtx -> wake_enabled s -> wake_enabled s'.
+Proof.
+  intros l s s' H N1 N2 [s1 E].
+  assert (P : c_cons s = CParked).
+  { destruct E as [E|E]; simpl in E; destruct (c_cons s); try discriminate; reflexivity. }
+  assert (R : c_sig s = true \/ (c_sig s = false /\ c_chclosed s = true) \/ c_ctx s = true).
+  { destruct E as [E|E]; simpl in E; rewrite P in E.
+    - destruct (c_sig s); auto. destruct (c_chclosed s); [auto|discriminate].
+    - destruct (c_ctx s); [auto|discriminate]. }
+  assert (G : c_cons s' = CParked /\ (c_sig s' = true \/ c_chclosed s' = true \/ c_ctx s' = true)).
+  { destruct l; simpl in H; try congruence; rewrite ?P in H; try discriminate.
+    - destruct (c_alive s && negb (existsb is_published (c_writers s))); [|discriminate].
+      destruct (nth_error (c_writers s) i) as [[evs k| |]|]; inversion H; subst; simpl. intuition.
+    - destruct (nth_error (c_writers s) i) as [[evs k| |]|]; inversion H; subst; simpl.
+      split; [simpl; auto|]. destruct R as [R|[[_ R]|R]]; rewrite ?R; auto.
+    - destruct (c_closer s); try discriminate.
+      destruct (sclosed (c_st s)); inversion H; subst; simpl; intuition.
+    - destruct (c_closer s); inversion H; subst; simpl; auto.
+    - inversion H; subst; simpl; auto.
+    - destruct (c_alive s && negb (existsb is_published (c_writers s)) && negb (is_marked (c_closer s))); [|discriminate].
+      destruct (c_reg s && negb (sclosed (c_st s))); inversion H; subst; simpl; intuition. }
+  destruct G as [P' R']. unfold wake_enabled; simpl. rewrite P'.
+  destruct (c_sig s'); [eexists; left; reflexivity|].
+  destruct (c_chclosed s'); [eexists; left; reflexivity|].
+  destruct (c_ctx s'); [eexists; right; reflexivity|].
+  destruct R' as [R'|[R'|R']]; discriminate.
+Qed.
+
+(* woken by the next commit: the two steps of any committer leave a parked
+   consumer of a registered stream with a full signal buffer *)
+Corollary commit_wakes : forall s i s1 s2,
+  consumer_waiting s -> c_reg s = true ->
+  cstep (LPublish i) s = Some s1 -> cstep (LSignal i) s1 = Some s2 ->
+  exists s3, cstep LWake s2 = Some s3 /\ c_cons s3 = CRunning true.
+Proof.
+  intros s i s1 s2 W Rg H1 H2. unfold consumer_waiting in W. simpl in H1, H2.
+  destruct (c_alive s && negb (existsb is_published (c_writers s))); [|discriminate].
+  destruct (nth_error (c_writers s) i) as [[evs k| |]|]; inversion H1; subst; clear H1. simpl in H2.
+  destruct (nth_error (set_nth i WPublished (c_writers s)) i) as [[evs' k'| |]|]; inversion H2; subst; clear H2.
+  simpl. rewrite W, Rg, orb_true_r. eexists; split; reflexivity.
+Qed.
+
+(* ================================================================== *)
+(* Part 4 — non-vacuity: concrete instances that meet the hypotheses   *)
+
+Definition ev2 : event := mkEvent 2 "d" "k" OpInsert.
+Definition ev3 : event := mkEvent 3 "d" "c" OpDrop.
+Definition ev4 : event := mkEvent 4 "d" "c" OpInsert.
+Definition st_after0 : sstate := mkS hcoll (Some 0%Z) false false None None None.
+Definition w_ex : world := world0 [ev0] 0 st_after0.
+
+Lemma ex_start : watch hcoll watch_now [ev0] = Some st_after0 /\ inv hcoll [ev0] w_ex [] [].
+Proof.
+  split; [reflexivity|]. apply inv_initial; simpl; auto.
+  - repeat constructor; simpl; intuition discriminate.
+  - exists [], ev0. auto.
+Qed.
+
+Definition script_ex : list sstep :=
+  [SCommit [ev1; ev2]; SIter true false; SCommit [ev3; ev4]; SIter false false; SIter false false;
+   SIter false false; SIter false false; SIter false false].
+
+Lemma script_ex_ok : script_ok (w_hist w_ex) script_ex.
+Proof.
+  simpl. repeat split; repeat constructor; simpl; intuition discriminate.
+Qed.
+
+(* delivery: a collection stream started after event 0 sees 1, skips 2 (other
+   collection), delivers the drop 3, is invalidated and never delivers 4 *)
+Lemma ex_delivery :
+  w_deliv (exec w_ex script_ex) = [ev1; ev3] /\
+  expected hcoll (skipn 1 (w_hist (exec w_ex script_ex))) = [ev1; ev3] /\
+  w_outs (exec w_ex script_ex) =
+    [Return (Event ev1); Continue; Return (Event ev3); Return Invalidate; Return Closed; Return Closed] /\
+  w_jumped (exec w_ex script_ex) = false.
+Proof. vm_compute. auto. Qed.
+
+(* lost: the anchored stream falls behind retention *)
+Definition script_lost : list sstep := [SCommit [ev1; ev2]; STrim 2].
+Lemma ex_lost :
+  script_ok (w_hist w_ex) script_lost /\ slast (w_st w_ex) <> None /\
+  let w := exec w_ex script_lost in
+  live (w_st w) /\ sdropped (w_st w) = false /\ position w < w_ntrim w /\
+  snd (next_iter false false (w_st w) (w_log w)) = Return Lost.
+Proof.
+  split; [simpl; repeat split; repeat constructor; simpl; intuition discriminate|].
+  split; [discriminate|]. vm_compute. repeat split; auto.
+Qed.
+
+(* completeness: retention removed only events strictly behind the reference event *)
+Definition script_complete : list sstep := [SCommit [ev1; ev2]; SIter false false; STrim 1; SCommit [ev4]].
+Lemma ex_complete :
+  script_ok (w_hist w_ex) script_complete /\
+  let w := exec w_ex script_complete in
+  w_jumped w = false /\ anchor_retained w /\ serror (w_st w) = None /\ sclosed (w_st w) = false /\
+  w_deliv w = [ev1] /\ w_deliv (drain 4 w) = [ev1; ev4] /\
+  expected hcoll (skipn 1 (w_hist w)) = [ev1; ev4].
+Proof.
+  split; [simpl; repeat split; repeat constructor; simpl; intuition discriminate|].
+  vm_compute. repeat split; auto.
+Qed.
+
+(* resume: a database stream resumed from the token of delivered event 1 *)
+Lemma ex_resume :
+  let w := exec w_ex script_complete in
+  In ev1 (w_deliv w) /\ In ev1 (w_log w) /\
+  exists st', watch ("d"%string, ""%string) (mkW (Some (TokEvent 1%Z)) None None) (w_log w) = Some st' /\
+              snd (next st' (w_log w)) = Ok (Event ev2).
+Proof. vm_compute. repeat split; auto. eexists; split; reflexivity. Qed.
+
+(* invalidate *)
+Lemma ex_invalidate :
+  exists s', next_iter false false (mkS hcoll (Some 2%Z) false false None None None) [ev2; ev3; ev4]
+             = (s', Return (Event ev3)) /\ drops hcoll ev3 = true.
+Proof. eexists; split; reflexivity. Qed.
+
+(* concurrent: the window between the consumer's unlock and its select *)
+Definition c_ex0 : cstate := cinit [ev0] st_after0 [([ev1], 0)].
+
+(* check finds nothing -> (unlock) -> commit publishes -> consumer is parked
+   with a matching event ahead and an empty buffer: the committer's send is pending *)
+Lemma ex_window :
+  exists s, crun [LCall true; LCheck; LPublish 0] c_ex0 = Some s /\
+            consumer_waiting s /\ undelivered_matching s /\ c_sig s = false /\
+            committer_about_to_signal s.
+Proof.
+  eexists; split; [vm_compute; reflexivity|]. unfold consumer_waiting, undelivered_matching, committer_about_to_signal.
+  simpl. repeat split; auto. exists ev1, [ev1]. repeat split; auto. left; reflexivity.
+Qed.
+
+(* ... the send fills the buffer, the select fires, the next pass delivers *)
+Lemma ex_wakeup :
+  exists s, crun [LCall true; LCheck; LPublish 0; LSignal 0; LWake; LCheck] c_ex0 = Some s /\
+            c_cons s = CDone (Event ev1) /\ c_sig s = false.
+Proof. eexists; split; [vm_compute; reflexivity|]. split; reflexivity. Qed.
+
+(* the signal arrives BEFORE the consumer reaches the select: it is buffered *)
+Lemma ex_signal_before_select :
+  exists s, crun [LCall true; LPublish 0; LSignal 0; LCheck; LReturn; LCall true; LCheck; LWake; LCheck] c_ex0 = Some s /\
+            c_cons s = CParked /\ c_sig s = false /\ quiescent s.
+Proof. eexists; split; [vm_compute; reflexivity|]. repeat split. Qed.
+
+(* Close, cancellation and Engine.Close wake a parked consumer *)
+Lemma ex_close_wakes :
+  (exists s, crun [LCall true; LCheck; LCloseMark; LCloseSend; LWake; LCheck] c_ex0 = Some s /\ c_cons s = CDone Closed) /\
+  (exists s, crun [LCall true; LCheck; LCancel; LWakeCtx] c_ex0 = Some s /\ c_cons s = CDone Closed /\ serror (c_st s) = Some ECtx) /\
+  (exists s, crun [LCall true; LCheck; LEngineClose; LWake] c_ex0 = Some s /\ c_cons s = CDone Closed /\ sclosed (c_st s) = true).
+Proof.
+  split; [|split]; eexists; (split; [vm_compute; reflexivity|]); repeat split.
+Qed.
+
+Lemma reachable_crun : forall ls s0 s, crun ls s0 = Some s -> forall r, reachable r s0 -> reachable r s.
+Proof.
+  induction ls as [|l t IH]; simpl; intros s0 s H r R.
+  - inversion H; subst; exact R.
+  - destruct (cstep l s0) as [s1|] eqn:E; [|discriminate].
+    eapply IH; [exact H|]. econstructor; eauto.
+Qed.
+
+Lemma ex_window_reachable :
+  exists s, initial c_ex0 /\ reachable c_ex0 s /\ consumer_waiting s /\ undelivered_matching s.
+Proof.
+  destruct ex_window as (s & H & W & U & _).
+  exists s. split; [eexists _, _, _; reflexivity|]. split; [|auto].
+  eapply reachable_crun; [exact H|constructor].
+Qed.
